@@ -17,7 +17,7 @@ func init() {
 		ID:    "C17",
 		Title: "Scores obey the BM25 laws and explanations derive the score",
 		Rules: []string{"C17.R1", "C17.R2", "C17.R3", "C17.R4", "C04.R5", "C17.R5"},
-		Decides: "explanation faithfulness as an algebraic identity over the source expressions (narrow claim): for every scorer, the expression returned by Score/ScoreComposite and the value handed to the explanation returned by Explain/ExplainComposite are the same rational function of the scorer's fields and arguments (per branch, with the branch condition substituted); for every explanation whose message quotes a formula ('computed as <formula> from:') the formula, with its symbols bound to the children by the leading symbol of their messages, is the same rational function as the node's value, and a 'sum of:' node carries the sum over exactly the constituents whose explanations are its children; every searcher that builds a match assigns Score from the explanation's Value on the explain branch and from the scorer called with the same arguments otherwise. the children list of an explanation does not share its backing array with a field or package variable. the document frequency used for idf is not a stale value of a recycled iterator (C04.R5).",
+		Decides: "explanation faithfulness as an algebraic identity over the source expressions (narrow claim): for every scorer, the expression returned by Score/ScoreComposite and the value handed to the explanation returned by Explain/ExplainComposite are the same rational function of the scorer's fields and arguments (per branch, with the branch condition substituted); for every explanation whose message quotes a formula ('computed as <formula> from:') the formula, with its symbols bound to the children by the leading symbol of their messages, is the same rational function as the node's value, and a 'sum of:' node carries the sum over exactly the constituents whose explanations are its children; every searcher that builds a match assigns Score from the explanation's Value on the explain branch and from the scorer called with the same arguments otherwise. the children list of an explanation does not share its backing array with a field or package variable. the document frequency used for idf is not a stale value of a recycled iterator (C04.R5). A *TokenFreq stored into a TokenFrequencies map by one of its methods is allocated there (entries are updated in place by later merges into a composite field; an adopted entry would inflate the source field's frequency) (C17.R5).",
 		NotCovered: "positivity, finiteness and monotonicity of the scores in the statistics (numeric), floating-point rounding (the identity is over the reals).",
 	})
 	registerRule(&RuleInfo{ID: "C17.R1", Title: "Score and Explain compute the same expression", Floor: 2, Run: ruleC17R1, Covers: "every Scorer / CompositeScorer implementation"})
